@@ -363,9 +363,29 @@ Lemma create_minavail_needs_crd_bound :
                  sumZ (map t_replicas (j_tasks j)) < j_minavail j.
 Proof.
   exists (mkOracles (fun _ _ => true) (fun _ _ _ => true) (fun _ => true) (fun _ => true)).
-  exists [mkQueue 2 1 1].
+  exists [mkQueue 2 1 1 false].
   exists (mkJob 7 [mkTask 4 (-2147483648) None (mkTmpl 1 false 0) [] 0 None None;
                    mkTask 5 (-1) None (mkTmpl 1 false 0) [] 0 None None]
                 5 [] [] None 2 0 0 0 0 0).
   vm_compute. split; reflexivity.
+Qed.
+
+(* ---------- terminating queues (deletionTimestamp set, object still listed) ---------- *)
+(* "leaf" means: no queue OBJECT names it as parent.  cs_queue quantifies over every
+   element of the table, terminating ones included; concretely a child that is only
+   terminating still makes its parent a non-leaf ... *)
+Definition tq_oracles := mkOracles (fun _ _ => true) (fun _ _ _ => true) (fun _ => true) (fun _ => true).
+Definition tq_job (q : Z) : job :=
+  mkJob 7 [mkTask 4 1 (Some 1) (mkTmpl 1 false 0) [] 3 None None] 1 [] [] None q 1 3 0 0 0.
+Lemma create_terminating_child_still_blocks :
+  validate_create tq_oracles [mkQueue 1 1 0 false; mkQueue 4 1 1 false; mkQueue 5 1 4 true] (tq_job 4) = false /\
+  validate_create tq_oracles [mkQueue 1 1 0 false; mkQueue 4 1 1 false] (tq_job 4) = true.
+Proof. vm_compute. split; reflexivity. Qed.
+(* ... and the webhook does admit a job into a queue that is itself terminating, as long
+   as its state is Open and it has no children (the object exists, is open, is a leaf) *)
+Lemma create_admits_terminating_target :
+  exists qs q, In q qs /\ q_term q = true /\ validate_create tq_oracles qs (tq_job (q_name q)) = true.
+Proof.
+  exists [mkQueue 1 1 0 false; mkQueue 4 1 1 true], (mkQueue 4 1 1 true).
+  split; [simpl; auto|]. split; [reflexivity|]. vm_compute. reflexivity.
 Qed.
